@@ -30,6 +30,11 @@ SEEDS = {
     "C18-inplace-c2r-odd": ("C18", "an odd transform length and at least two wakePotential() calls on the same object", []),
     "C19-stale-kick-after-flush": ("C19", "modulation or noise on and an output flush directly before a step: that step runs with the previous step's kick while the record is right", []),
     "C20-bunchcurrent-composing": ("C20", "BunchCurrent on the command line AND in the config file: the file's values are appended instead of overridden", ["C13"]),
+    "C09b-average-by-set-share": ("C09", "a bunch whose actual population differs from its share (data not freshly renormalised) AND an off-centre distribution: the mean is divided by the set share instead of the measured charge", []),
+    "C02b-drop-minus-half-grid-shift": ("C02", "interpolation order 3 or 4 and a displacement in [-n/2, -n/2+1): the whole-cell shift by -n/2 returns zeros", []),
+    "C14b-sigint-ignored-during-append": ("C14", "a single signal arriving between the appends of an output block or of the final block (SIGINT set to SIG_IGN there): it is dropped", []),
+    "C06b-exact-fit-last-cell": ("C06", "the last bucket ends exactly at the end of the padded buffer and its last profile cell is non-zero: that cell is not copied", ["C18"]),
+    "C03b-bunchlength-from-option-alpha0": ("C03", "synchrotron frequency given with -f (far from what the alpha0 option implies, or many steps) together with the sinusoidal RF model: the kick slope follows the alpha0 option, drift and time step follow -f", ["C10"]),
     "C10-": ("C10", "", []),
     "C17-": ("C17", "", []),
 }
